@@ -74,7 +74,10 @@ def strategy_(draw, tier):
             "kind": draw(st.sampled_from(["file", "tree", "link_dangling"])),
             "name": draw(gen.names(long_ok=False)),
             "umask": draw(st.sampled_from([0o022, 0o077, 0, 0o027])),
-            "subdir": draw(st.sampled_from(["w", "w/deep/er"]))}
+            "subdir": draw(st.sampled_from(["w", "w/deep/er"])),
+            # a second file argument in the SAME invocation, living on another volume (state kept
+            # between arguments must not leak the first argument's verdicts to the second)
+            "companion": draw(st.sampled_from(["none", "none", "before", "after"]))}
 
 
 def strategy(tier):
@@ -220,11 +223,20 @@ def run_case(case):
         opts.append("--home-fallback")
     if o in ("fallback_both", "fallback_env_only"):
         env["TRASH_ENABLE_HOME_FALLBACK"] = "1"
+    comp = None
+    argv_files = [arg]
+    if case.get("companion", "none") != "none" and other:
+        cv = other[-1].rstrip("/")
+        cdir = (home if oracle.volume_of(vols, home) == (cv or "/") else cv) + "/companion dir"
+        nodes.append({"p": cdir, "t": "d"})
+        comp = cdir + "/companion-" + case["name"]
+        nodes.append({"p": comp, "t": "f", "c": "companion"})
+        argv_files = [comp, arg] if case["companion"] == "before" else [arg, comp]
     spec = {"vols": vols, "nodes": nodes, "env": env, "uid": uid, "cwd": cwd,
             "umask": case["umask"], "now": "2022-02-02T02:02:02"}
     sandbox.build_world(spec)
     before = sandbox.snapshot()
-    res = runner.run(spec, "trash-put", opts + ["--", arg], stdin="y\ny\n")
+    res = runner.run(spec, "trash-put", opts + ["--"] + argv_files, stdin="y\ny\n")
     after = sandbox.snapshot()
     real_fvol = vol_of(before, vols, D)
     want, via_fb = decide(before, vols, env, uid, real_fvol, opt_dir, o == "fallback_both")
@@ -242,7 +254,7 @@ def run_case(case):
         out.fail("not_conserved", "entry %s: %s (exit %d, stderr %r)" % (e, info, res.code,
                                                                           res.err[-300:]), **tags)
     elif want is None:
-        if state != "U" or res.code == 0:
+        if state != "U" or (res.code == 0 and comp is None):
             out.fail("should_have_failed", "no trash directory is admissible (file volume %s) but "
                      "state is %s in %s, exit %d" % (real_fvol, state, got, res.code), **tags)
     else:
@@ -266,6 +278,29 @@ def run_case(case):
                     out.fail("cross_volume", "trash dir %s is on %s, the file on %s" % (got, gv, real_fvol), **tags)
                 if before[e].ino != after[info].ino or before[e].dev != after[info].dev:
                     out.fail("copied_not_renamed", "payload is a copy (inode changed)", **tags)
+    if comp is not None:
+        # the companion is judged by the same table, for ITS volume
+        cvol = vol_of(before, vols, comp.rsplit("/", 1)[0])
+        cwant, cfb = decide(before, vols, env, uid, cvol, opt_dir, o == "fallback_both")
+        cstate, cinfo = pa.state_of(comp, check_path=False)
+        ctags = dict(tags, companion=case["companion"])
+        if cstate == "X":
+            out.fail("companion_not_conserved", "companion %s: %s" % (comp, cinfo), **ctags)
+        elif cwant is None:
+            if cstate != "U":
+                out.fail("companion_should_have_failed", "companion %s (volume %s) has no admissible "
+                         "trash dir but state is %s" % (comp, cvol, cstate), **ctags)
+        elif cstate != "T":
+            out.fail("companion_not_trashed", "companion %s should go to %s: exit %d stderr %r" % (
+                comp, cwant, res.code, res.err[-300:]), **ctags)
+        else:
+            cgot = pa.new_payloads[cinfo][0]
+            if cgot != cwant and (oracle.resolve(after, cgot) or cgot) != (oracle.resolve(after, cwant) or cwant):
+                out.fail("companion_wrong_dir", "two arguments in one invocation: %s (volume %s) went to "
+                         "%s, the spec prescribes %s" % (comp, cvol, cgot, cwant), **ctags)
+            elif not cfb and (before[comp].ino != after[cinfo].ino or before[comp].dev != after[cinfo].dev):
+                out.fail("companion_copied", "companion payload is a copy (inode changed)", **ctags)
+        out.classes.append("companion:" + case["companion"])
     if res.stdin_used:
         out.fail("prompted", "trash-put read %d bytes from stdin" % res.stdin_used, **tags)
     si, sp = pa.leftovers()
@@ -273,7 +308,7 @@ def run_case(case):
         out.fail("leftovers", "stray infos %s orphan payloads %s" % (si[:2], sp[:2]), **tags)
     if len(vols) >= 1 or case["top"] != "absent" or reach in ("via_cross_link", "link_slash"):
         out.key = [case["layout"], fvol, case["top"], case["uid_state"], case["alt"], case["hometrash"],
-                   xdg, case["home_set"], o, reach, cls]
+                   xdg, case["home_set"], o, reach, cls, case.get("companion", "none")]
         out.sample = {"layout": case["layout"], "file": e, "arg": arg, "opts": opts, "env": env,
                       "expected": want, "got": got, "exit": res.code}
     return out
